@@ -1082,3 +1082,209 @@ Lemma at_event_refuses e : trace r = pre ++ e :: post -> cl_refuses q e.
 Proof. intro E. exact (proj1 (holds_at _ _ _ _ _) (proj1 (clause_refuses c bits clear tls outs choices)) _ _ _ E). Qed.
 
 End Direct.
+
+(* ------------------------------------------------------------------ a refused selection is the end *)
+
+Section Refusal.
+Variables (c : config) (bits : N) (clear tls : list pitem) (outs : list outcome) (choices : list bytes).
+Let r := run c bits clear tls outs choices.
+Let fs := c_feats c.
+Let ws := c_ws c.
+
+Lemma refused_selection_ends pre post st it sp :
+  trace r = pre ++ EIn RPSelect st it :: post ->
+  let q := final fs ws (mon0 bits) pre in
+  selection_space c it = Some sp -> accept (q_cache q) (q_negd q) st sp = None ->
+  post = [] /\ r_class r = RErr EPolicy.
+Proof.
+  intros E q Hs Ha.
+  assert (Hq : q_refused (upd fs ws q (EIn RPSelect st it)) = Some EPolicy).
+  { simpl. unfold fs, ws. rewrite selection_space_ws, Hs. fold fs. fold q. rewrite Ha. reflexivity. }
+  assert (Hp : post = []).
+  { destruct post as [|e' post']; [reflexivity|]. exfalso.
+    assert (E' : trace r = (pre ++ [EIn RPSelect st it]) ++ e' :: post') by (rewrite <- app_assoc; exact E).
+    pose proof (at_event_refuses c bits clear tls outs choices _ _ _ E') as [X _].
+    fold fs ws in X. rewrite final_app in X. simpl in X. fold q in X.
+    change (q_refused (upd fs ws q (EIn RPSelect st it)) = None) in X. congruence. }
+  split; [exact Hp|]. subst post.
+  destruct (clause_refuses c bits clear tls outs choices) as [_ RR]. fold r fs ws in RR.
+  apply RR. rewrite E, final_app. simpl. exact Hq.
+Qed.
+
+(* a selection that cannot be one at all (character data, an <iq/> without payload,
+   bytes that are not XML) ends the run as well, with another error *)
+Lemma unusable_selection_ends pre post st it :
+  trace r = pre ++ EIn RPSelect st it :: post ->
+  selection_space c it = None -> post = [] /\ r_class r = RErr EOther.
+Proof.
+  intros E Hs. set (q := final fs ws (mon0 bits) pre).
+  assert (Hq : q_refused (upd fs ws q (EIn RPSelect st it)) = Some EOther).
+  { simpl. unfold fs, ws. rewrite selection_space_ws, Hs. reflexivity. }
+  assert (Hp : post = []).
+  { destruct post as [|e' post']; [reflexivity|]. exfalso.
+    assert (E' : trace r = (pre ++ [EIn RPSelect st it]) ++ e' :: post') by (rewrite <- app_assoc; exact E).
+    pose proof (at_event_refuses c bits clear tls outs choices _ _ _ E') as [X _].
+    fold fs ws in X. rewrite final_app in X. simpl in X. fold q in X.
+    change (q_refused (upd fs ws q (EIn RPSelect st it)) = None) in X. congruence. }
+  split; [exact Hp|]. subst post.
+  destruct (clause_refuses c bits clear tls outs choices) as [_ RR]. fold r fs ws in RR.
+  apply RR. rewrite E, final_app. simpl. exact Hq.
+Qed.
+
+(* on the receiving side a feature runs only as the one legitimately selected just before *)
+Lemma receiver_runs_selected pre post f st o :
+  trace r = pre ++ ENeg f st o :: post ->
+  let q := final fs ws (mon0 bits) pre in
+  q_recv q = true -> q_expect q = Some f.
+Proof.
+  intros E q Hr. pose proof (at_event_refuses c bits clear tls outs choices _ _ _ E) as [_ X].
+  simpl in X. apply X. exact Hr.
+Qed.
+
+End Refusal.
+
+(* ------------------------------------------------------------------ state bits only grow *)
+
+(* the state after a Negotiate call that saw st and returned o *)
+Definition after_neg (st : N) (o : outcome) : N := if o_err o then st else N.lor st (o_mask o).
+
+Lemma last_grows fs ws : forall tr q,
+  holds fs ws cl_monotone q tr -> has (q_last (final fs ws q tr)) (q_last q) = true.
+Proof.
+  induction tr as [|e tr IH]; intros q Hh; simpl in *.
+  - apply has_refl.
+  - destruct Hh as [He Hr]. apply IH in Hr. eapply has_trans; [exact Hr|]. clear Hr IH.
+    destruct e as [rp st it| rp | w | f | f | f st o | n | b]; simpl; try apply has_refl.
+    + destruct rp; try apply has_refl.
+      * destruct it as [[] []]; simpl; apply has_refl.
+      * destruct (selection_space _ it); [|apply has_refl].
+        destruct (accept _ _ _ _) as [[? ?]|]; apply has_refl.
+    + destruct w as [|st names []|]; apply has_refl.
+    + simpl in He. destruct (o_err o); [exact He | apply has_lor_l; exact He].
+Qed.
+
+Lemma upd_in_select_last fs ws q st it : q_last (upd fs ws q (EIn RPSelect st it)) = q_last q.
+Proof.
+  simpl. destruct (selection_space _ it); [|reflexivity]. destruct (accept _ _ _ _) as [[? ?]|]; reflexivity.
+Qed.
+
+Section Monotone.
+Variables (c : config) (bits : N) (clear tls : list pitem) (outs : list outcome) (choices : list bytes).
+Let r := run c bits clear tls outs choices.
+Let fs := c_feats c.
+Let ws := c_ws c.
+
+Lemma neg_sees_initial_bits pre f st o post :
+  trace r = pre ++ ENeg f st o :: post -> has st bits = true.
+Proof.
+  intro E. pose proof (proj1 (clause_monotone c bits clear tls outs choices)) as Hm. fold r fs ws in Hm.
+  pose proof (at_event_monotone c bits clear tls outs choices _ _ _ E) as X. simpl in X.
+  rewrite E in Hm. apply holds_app in Hm. destruct Hm as [Hm _]. apply last_grows in Hm. simpl in Hm.
+  eapply has_trans; eauto.
+Qed.
+
+Lemma neg_sees_earlier_neg pre f1 st1 o1 mid f2 st2 o2 post :
+  trace r = pre ++ ENeg f1 st1 o1 :: mid ++ ENeg f2 st2 o2 :: post ->
+  has st2 (after_neg st1 o1) = true.
+Proof.
+  intro E.
+  assert (E' : trace r = (pre ++ ENeg f1 st1 o1 :: mid) ++ ENeg f2 st2 o2 :: post)
+    by (rewrite <- app_assoc; exact E).
+  pose proof (at_event_monotone c bits clear tls outs choices _ _ _ E') as X. simpl in X.
+  pose proof (proj1 (clause_monotone c bits clear tls outs choices)) as Hm. fold r fs ws in Hm.
+  rewrite E in Hm. apply holds_app in Hm. destruct Hm as [_ Hm]. simpl in Hm. destruct Hm as [_ Hm].
+  apply holds_app in Hm. destruct Hm as [Hm _]. apply last_grows in Hm.
+  fold fs ws in X. rewrite final_app in X. simpl in X.
+  eapply has_trans; [exact X|]. eapply has_trans; [exact Hm|]. simpl. unfold after_neg.
+  destruct (o_err o1); apply has_refl.
+Qed.
+
+Lemma final_bits_contain_neg pre f st o post :
+  trace r = pre ++ ENeg f st o :: post -> has (r_bits r) (after_neg st o) = true.
+Proof.
+  intro E. destruct (clause_monotone c bits clear tls outs choices) as [Hm Hf]. fold r fs ws in Hm, Hf.
+  rewrite E in Hm, Hf. rewrite final_app in Hf. simpl in Hf.
+  apply holds_app in Hm. destruct Hm as [_ Hm]. simpl in Hm. destruct Hm as [_ Hm].
+  apply last_grows in Hm. eapply has_trans; [exact Hf|]. eapply has_trans; [exact Hm|].
+  simpl. unfold after_neg. destruct (o_err o); apply has_refl.
+Qed.
+
+Lemma final_bits_contain_initial : has (r_bits r) bits = true.
+Proof.
+  destruct (clause_monotone c bits clear tls outs choices) as [Hm Hf]. fold r fs ws in Hm, Hf.
+  apply last_grows in Hm. simpl in Hm. eapply has_trans; eauto.
+Qed.
+
+End Monotone.
+
+(* ------------------------------------------------------------------ established: the full statement is false *)
+
+(* the full statement of the last-but-one clause of C01 *)
+Definition established_sound_statement : Prop :=
+  forall c bits clear tls outs choices,
+    let r := run c bits clear tls outs choices in
+    established_sound (final (c_feats c) (c_ws c) (mon0 bits) (trace r)) r.
+
+Lemma w1_established : r_class w1_run = ROk /\ pending (mon_of cfg_ab 0 w1_run).
+Proof.
+  split; [vm_compute; reflexivity|]. exists fb. split; vm_compute; auto.
+Qed.
+
+Lemma w2_established : r_class w2_run = ROk /\ q_need_header (mon_of cfg_ab 0 w2_run) = true.
+Proof. split; vm_compute; reflexivity. Qed.
+
+Lemma established_sound_refuted_required :
+  exists c bits clear tls outs choices,
+    let r := run c bits clear tls outs choices in
+    r_class r = ROk /\ pending (final (c_feats c) (c_ws c) (mon0 bits) (trace r)).
+Proof.
+  exists cfg_ab, 0%N, [hdr; mkItem false (PFeatures [FC xa (str "a") true false; FC xb (str "b") true false])], [],
+         [mkO st_Ready false false], [xa].
+  exact w1_established.
+Qed.
+
+Lemma established_sound_refuted_restart :
+  exists c bits clear tls outs choices,
+    let r := run c bits clear tls outs choices in
+    r_class r = ROk /\ q_need_header (final (c_feats c) (c_ws c) (mon0 bits) (trace r)) = true.
+Proof.
+  exists cfg_ab, 0%N, [hdr; mkItem false (PFeatures [FC xa (str "a") false false])], [],
+         [mkO st_Ready true false], [xa].
+  exact w2_established.
+Qed.
+
+Lemma established_sound_false : ~ established_sound_statement.
+Proof.
+  intro S. destruct w2_established as [A B].
+  destruct (S cfg_ab 0%N [hdr; mkItem false (PFeatures [FC xa (str "a") false false])] []
+              [mkO st_Ready true false] [xa] A) as (_ & _ & X & _).
+  unfold mon_of in B. simpl c_feats in *. simpl c_ws in *. unfold w2_run in B. congruence.
+Qed.
+
+(* ------------------------------------------------------------------ tables read from the sources *)
+
+Lemma tbl_bits_distinct :
+  st_Secure = 1%N /\ st_Authn = 2%N /\ st_Ready = 4%N /\ st_Received = 8%N /\ st_S2S = 64%N.
+Proof. vm_compute. repeat split; reflexivity. Qed.
+
+Lemma tbl_builtin_masks :
+  (ft_starttls_nec = 0%N /\ ft_starttls_proh = st_Secure /\ ft_starttls_negotiable = true) /\
+  (ft_sasl_nec = st_Secure /\ ft_sasl_proh = st_Authn /\ ft_sasl_negotiable = true) /\
+  (ft_bind_nec = st_Authn /\ ft_bind_proh = st_Ready /\ ft_bind_negotiable = true) /\
+  (ft_bidi_nec = st_Secure /\ ft_bidi_proh = st_Authn) /\
+  ft_starttls_space = ns_StartTLS.
+Proof. vm_compute. repeat split; reflexivity. Qed.
+
+(* with those masks the built-in features can only run in the order STARTTLS, SASL, bind *)
+Lemma builtin_order c bits clear tls outs choices pre f st o post :
+  (forall g, find_space ns_StartTLS (c_feats c) = Some g -> f_nec g = ft_starttls_nec /\ f_proh g = ft_starttls_proh) ->
+  trace (run c bits clear tls outs choices) = pre ++ ENeg f st o :: post ->
+  (f_nec f = ft_sasl_nec -> f_proh f = ft_sasl_proh -> has st st_Secure = true /\ disj st st_Authn = true) /\
+  (f_nec f = ft_bind_nec -> f_proh f = ft_bind_proh -> has st st_Authn = true /\ disj st st_Ready = true) /\
+  (f_nec f = ft_starttls_nec -> f_proh f = ft_starttls_proh -> disj st st_Secure = true).
+Proof.
+  intros Hb E.
+  pose proof (proj1 (holds_at _ _ _ _ _) (clause_prerequisites_builtin c bits clear tls outs choices Hb) _ _ _ E) as X.
+  simpl in X. unfold eligible in X. apply andb_true_iff in X. destruct X as [X1 X2].
+  repeat split; intros Hn Hp; rewrite ?Hn, ?Hp in *; auto.
+Qed.
